@@ -18,6 +18,7 @@ ops:
   ["adapt", via, [args], p, name]   via = "qa" queryAdapter | "hook" adapter_hook | "multi" queryMultiAdapter
   ["implspec", c, b]      classImplements(c, implementedBy(b))   (b created before c)
   ["held", i]             the specification operation i returned, flattened again now
+  "supercls": "plain" | "attrs" | "slots"   every proxy of the case is an instance of a SUBCLASS of ``super``
   "observe": [[j, [C ...]] ...]   a dependent subscribed to implementedBy(type(instance j)) that looks at
                           super(C, instance j) inside its changed(); reported per operation under "fired"
                           as [j, C, answer, I.providedBy set] (last firing)
@@ -59,6 +60,24 @@ class Factory:
         return self.vid * 1000 + code
 
 
+class PlainSuper(super):
+    """a proxy type derived from ``super``: still a super proxy for every isinstance / PyObject_TypeCheck"""
+
+
+class TaggedSuper(super):
+    tag = "logging"
+
+    def describe(self):
+        return "proxy for %r" % (self.__thisclass__,)
+
+
+class SlotSuper(super):
+    __slots__ = ("note",)
+
+
+SUPERS = {None: super, "plain": PlainSuper, "attrs": TaggedSuper, "slots": SlotSuper}
+
+
 class Observer:
     """A dependent subscribed through the public Specification.subscribe() to implementedBy(type(ob)):
     inside its changed() - that is, WHILE the change notification is still running - it looks at
@@ -72,7 +91,7 @@ class Observer:
         seen = []
         for c in self.cs:
             try:
-                sup = super(w.classes[c], w.objects[self.j])
+                sup = SUPERS[w.supercls](w.classes[c], w.objects[self.j])
                 spec = providedBy(sup)
                 seen.append((c, spec, sorted(w.iface_no(i) for i in spec.flattened()),
                              [n for n, i in enumerate(w.ifaces) if i.providedBy(sup)]))
@@ -125,6 +144,7 @@ class World:
             if direct:
                 directlyProvides(ob, *[self.ifaces[i] for i in direct])
             self.objects.append(ob)
+        self.supercls = case.get("supercls")
         self.fired = {}
         self.results = []       # the specification object every operation returned (held for good)
         self.observers = []
@@ -151,11 +171,12 @@ class World:
     def arg(self, a):
         if a[0] == "obj":
             return self.objects[a[1]]
+        sup = SUPERS[self.supercls]                  # ``super`` itself or a subclass of it
         if a[0] == "superc":                         # bound to the class object
-            return super(self.classes[a[1]], self.classes[a[2]])
+            return sup(self.classes[a[1]], self.classes[a[2]])
         if a[0] == "unbound":
-            return super(self.classes[a[1]])
-        return super(self.classes[a[1]], self.objects[a[2]])
+            return sup(self.classes[a[1]])
+        return sup(self.classes[a[1]], self.objects[a[2]])
 
     def iface_no(self, i):
         for k, x in enumerate(self.ifaces):
